@@ -180,8 +180,8 @@ pub struct Compiler<'a, 'src> {
   /// The info on the current class
   class_attributes: Option<Ref<ClassAttributes>>,
 
-  /// The info on the current loop
-  try_attributes: Option<TryAttributes>,
+  /// The info on the try blocks currently open in this function, innermost last
+  try_attributes: Vec<TryAttributes>,
 
   /// The info on the current loop
   loop_attributes: Option<LoopAttributes>,
@@ -294,7 +294,7 @@ impl<'a, 'src: 'a> Compiler<'a, 'src> {
       repl,
       class_attributes: None,
       loop_attributes: None,
-      try_attributes: None,
+      try_attributes: vec![],
       gc: Rc::new(RefCell::new(gc)),
       enclosing: None,
       local_tables: collections::Vec::new_in(alloc),
@@ -365,7 +365,7 @@ impl<'a, 'src: 'a> Compiler<'a, 'src> {
       repl: enclosing.repl,
       class_attributes: enclosing.class_attributes,
       loop_attributes: None,
-      try_attributes: None,
+      try_attributes: vec![],
       gc: Rc::clone(&enclosing.gc),
       locals: collections::Vec::new_in(enclosing.alloc),
       module_table: None,
@@ -450,7 +450,7 @@ impl<'a, 'src: 'a> Compiler<'a, 'src> {
       _ => self.emit_byte(SymbolicByteCode::Nil, line),
     }
 
-    if self.try_attributes.is_some() {
+    for _ in 0..self.try_attributes.len() {
       self.emit_byte(SymbolicByteCode::PopHandler, line);
     }
 
@@ -1596,7 +1596,7 @@ impl<'a, 'src: 'a> Compiler<'a, 'src> {
       Some(v) => {
         self.expr(v);
 
-        if self.try_attributes.is_some() {
+        for _ in 0..self.try_attributes.len() {
           self.emit_byte(SymbolicByteCode::PopHandler, v.end());
         }
 
@@ -1617,8 +1617,8 @@ impl<'a, 'src: 'a> Compiler<'a, 'src> {
 
     // if our try catch is inside this loop
     // a break will jump outside of it so we need to pop the handler
-    if let Some(try_attributes) = self.try_attributes {
-      if try_attributes.scope_depth > loop_attributes.scope_depth {
+    for i in 0..self.try_attributes.len() {
+      if self.try_attributes[i].scope_depth > loop_attributes.scope_depth {
         self.emit_byte(SymbolicByteCode::PopHandler, continue_.start());
       }
     }
@@ -1640,8 +1640,8 @@ impl<'a, 'src: 'a> Compiler<'a, 'src> {
 
     // if our try catch is inside this loop
     // a break will jump outside of it so we need to pop the handler
-    if let Some(try_attributes) = self.try_attributes {
-      if try_attributes.scope_depth > loop_attributes.scope_depth {
+    for i in 0..self.try_attributes.len() {
+      if self.try_attributes[i].scope_depth > loop_attributes.scope_depth {
         self.emit_byte(SymbolicByteCode::PopHandler, break_.start());
       }
     }
@@ -1655,7 +1655,7 @@ impl<'a, 'src: 'a> Compiler<'a, 'src> {
     let try_attributes = TryAttributes {
       scope_depth: self.scope_depth,
     };
-    let enclosing_try = self.try_attributes.replace(try_attributes);
+    self.try_attributes.push(try_attributes);
 
     let catch_label = self.label_emitter.emit();
 
@@ -1680,7 +1680,7 @@ impl<'a, 'src: 'a> Compiler<'a, 'src> {
     // provided variable. This was be implemented later
     let catch = try_.catches.first().expect("Expected catch block");
     self.emit_byte(SymbolicByteCode::Label(catch_label), catch.start());
-    self.try_attributes = enclosing_try;
+    self.try_attributes.pop();
 
     for catch in &try_.catches {
       self.catch(catch, try_end_label);
